@@ -32,7 +32,8 @@ struct Recorder
     std::mutex mu; // guards the cold paths only (time / waypoint cost logs)
     std::vector<std::vector<double>> timeArgs;
     std::vector<Eigen::MatrixXd> wpArgs;
-    Recorder() : perThread(64) {}
+    uint64_t id;
+    Recorder();
     void clear()
     {
         for (auto &v : perThread)
